@@ -173,6 +173,33 @@ def mt_resize_failure_atomic(prog, res):
     res.need(R, 5)
 
 
+def job_buffer_recorded(prog, res):
+    """T5c for the worker: ZSTDMT_compressionJob takes its output buffer from the pool into a local; the job description is
+    what ZSTDMT_releaseAllJobResources / ZSTD_freeCCtx walk.  Every path from the successful ZSTDMT_getBuffer to the end of
+    the function must first store the buffer into the job (or release it): a failure in between would leave the block known
+    to a dead local only."""
+    R = "T5c.job-buffer-recorded"
+    if not prog.has_fn("ZSTDMT_compressionJob"):
+        return
+    f = prog.fn("ZSTDMT_compressionJob")
+    gets = [(b, i, x) for b, i, x in f.events(lambda y: y.get("k") == "asg") if any(is_call(z, "ZSTDMT_getBuffer") for z in walk(x["rhs"]))]
+    res.check(len(gets) == 1, R, "site", f.loc, "one buffer acquisition", "buffer acquisitions in the worker: %d" % len(gets))
+    if len(gets) != 1:
+        return
+    b, i, x = gets[0]
+    loc = strip_casts(x["lhs"]).get("n")
+    rec = f.find_roots(lambda y: y.get("k") == "asg" and strip_casts(y["lhs"]).get("f") == "dstBuff" and strip_casts(y["rhs"]).get("n") == loc)
+    rel = f.find_roots(lambda y: y.get("k") == "call" and y.get("c") == "ZSTDMT_releaseBuffer" and any(strip_casts(a).get("n") == loc for a in y.get("a", [])))
+    # the only legitimate exit before recording is the one taken when the acquisition itself failed (start == NULL)
+    nullfail = guards.rel_edges(f, lambda a: any(y.get("f") == "start" for y in f.walk_resolved(a)), "==", lambda b_: const_val(strip_casts(b_)) == 0, truth=True) \
+        if hasattr(guards, "rel_edges") else []
+    ok = bool(rec) and f.must_pass(via_roots=rec + rel, via_edges=nullfail, starts=[(b, i + 1)], targets=[f.exit_node()] + [(bb, ii) for bb, ii, r in f.returns()])
+    res.check(ok, R, "recorded-before-any-exit", f.loc, "the buffer is stored into job->dstBuff before any way out of the worker",
+              "ZSTDMT_compressionJob can leave (JOB_ERROR after a failed allocation) between taking its output buffer from the pool and recording it in the "
+              "job: the block is never returned through the caller's deallocator")
+    res.need(R, 2)
+
+
 def run(tier):
     res = Result("C13", tier)
     tus, info = extract(["common", "compress", "decompress", "dictBuilder", "seekable", "legacy"])
@@ -196,6 +223,7 @@ def run(tier):
     res.need("T5e.allocator-before-destructor", 7)
     allocator_pair_validated(prog, res)
     decoder_realloc(prog, res)
+    job_buffer_recorded(prog, res)
     mt_resize_failure_atomic(prog, res)
     # the serial state's tables are freed with serialState->params.customMem: it must be recorded
     # before the tables are (re)allocated, else a failure in between frees with the wrong allocator
